@@ -819,9 +819,14 @@ func (c *c11Case) timeTravel(o c11Out) *Violation {
 				if !ok || !cur.vis {
 					continue // inconsistent history at t: nothing is claimed
 				}
-				// the child must also have been consistent at the parent's own commit
+				// the child must also have been consistent at the parent's own commit - except, in the commit-time
+				// regime, under IgnoreInconsistency: the slot is then left unannotated at the commit, and the
+				// versions from the commit on are this parent version's updates all the same (applied up to a t at
+				// which the child is visible again they leave the version current at t)
 				if c0, ok0 := currentAt(rf.fid, p.commit); !ok0 || !c0.vis {
-					continue
+					if tsRegime || !c.ii {
+						continue
+					}
 				}
 				if tsRegime {
 					if c0, ok0 := currentAt(rf.fid, begin); !ok0 || !c0.vis {
@@ -895,11 +900,15 @@ func c11GenOne(r *Rng, sameSecondFamily, skew bool) string {
 	hist := map[int64][]c11Child{}
 	visible := map[int64]bool{}
 	cs := int64(100)
+	inconsistent := false // set below, before the timeline proper starts
 	addVersion := func(fid int64, vis bool) {
 		l := hist[fid]
 		ver := int64(len(l) + 1)
 		if len(l) > 0 {
 			ver = l[len(l)-1].ver + 1 + int64(r.Intn(10)/9) // occasional gap in version numbers
+			if inconsistent && r.Chance(30) {
+				ver++ // redacted versions: version numbers and positions in the history drift apart
+			}
 		}
 		ch := c11Child{ver: ver, cs: cs, vis: vis, ts: t, commit: t, hasCommit: commitRegime, lat: int64(1 + r.Intn(300)), lon: int64(1 + r.Intn(300))}
 		if commitRegime && r.Chance(30) {
@@ -917,7 +926,7 @@ func c11GenOne(r *Rng, sameSecondFamily, skew bool) string {
 	var parents []c11Parent
 	curRefs := []int64{}
 	parentVisible := false
-	inconsistent := r.Chance(10)
+	inconsistent = r.Chance(10)
 	advance := func() {
 		switch r.Intn(6) {
 		case 0: // same second
@@ -940,6 +949,8 @@ func c11GenOne(r *Rng, sameSecondFamily, skew bool) string {
 				if !visible[fid] {
 					if len(hist[fid]) == 0 || r.Chance(60) {
 						addVersion(fid, true)
+					} else if inconsistent && r.Chance(50) {
+						// inconsistent data: the parent refers to a child that is deleted at its commit
 					} else {
 						continue
 					}
@@ -1071,6 +1082,9 @@ func c11GenOne(r *Rng, sameSecondFamily, skew bool) string {
 	}
 	// drop a history occasionally
 	ii, im := r.Chance(15), r.Chance(15)
+	if inconsistent && r.Chance(50) {
+		ii = true // inconsistent timelines are mostly annotated the way such data has to be: ignoring inconsistencies
+	}
 	if r.Chance(6) {
 		delete(hist, fids[r.Intn(len(fids))])
 	}
